@@ -136,6 +136,35 @@ Section Relabel.
   Lemma mem_kappa a l : mem Z.eqb (kappa a) (map kappa l) = mem Z.eqb a l.
   Proof. induction l as [|x r IH]; [reflexivity|]. cbn [map mem]. rewrite kappa_eqb, IH. reflexivity. Qed.
 
+  (* ---- dropping the keys no hint mentions (prune_keys) commutes with an injective relabelling *)
+  Lemma pk_node_unfold used op sg i o (regs : list (eregion L Sy)) keys meta :
+    pk_node used (ENode op sg i o regs keys meta) = ENode op sg i o (map prune_keys regs) (keep_used used keys) meta.
+  Proof. reflexivity. Qed.
+  Lemma hint_keys_rl hh : hint_keys (map rl_hint hh) = map kappa (hint_keys hh).
+  Proof. unfold hint_keys. induction hh as [|ab r IH]; [reflexivity|]. cbn [map flat_map app]. rewrite IH. reflexivity. Qed.
+  Lemma keep_used_kappa used keys : keep_used (map kappa used) (map kappa keys) = map kappa (keep_used used keys).
+  Proof.
+    unfold keep_used. induction keys as [|k r IH]; [reflexivity|]. cbn [map filter]. rewrite mem_kappa, IH.
+    destruct (mem Z.eqb k used); reflexivity.
+  Qed.
+  Lemma pk_rl : forall e used, pk_node (map kappa used) (rl_node e) = rl_node (pk_node used e).
+  Proof.
+    apply (enode_ind2 (fun e => forall used, pk_node (map kappa used) (rl_node e) = rl_node (pk_node used e))
+                      (fun r => prune_keys (rl_region r) = rl_region (prune_keys r))).
+    - intros op sg i o regs keys meta IH used.
+      rewrite rl_node_unfold, !pk_node_unfold, rl_node_unfold, !map_map, keep_used_kappa. f_equal.
+      revert IH. induction regs as [|r rs IHr]; intros IH; [reflexivity|].
+      inversion IH as [|? ? Hr Hrs]; subst. cbn [map]. rewrite Hr, IHr by exact Hrs. reflexivity.
+    - intros k s t ch hh IH. cbn [rl_region prune_keys]. rewrite hint_keys_rl, !map_map. f_equal.
+      revert IH. induction ch as [|e es IHe]; intros IH; [reflexivity|].
+      inversion IH as [|? ? He Hes]; subst. cbn [map]. rewrite He, IHe by exact Hes. reflexivity.
+  Qed.
+  Theorem prune_keys_relabel (m : eregion L Sy) : prune_keys (rl_region m) = rl_region (prune_keys m).
+  Proof.
+    destruct m as [k s t ch hh]. cbn [rl_region prune_keys]. rewrite hint_keys_rl, !map_map. f_equal.
+    apply map_ext. intros e. apply pk_rl.
+  Qed.
+
   Lemma hint_of_rl KP l hint : hint_of (map FR KP) l (rl_hint hint) = hint_of KP l hint.
   Proof.
     unfold hint_of. rewrite !find_kid_rl.
@@ -254,6 +283,26 @@ Theorem canon_full_relabel {L Sy} (leqb : L -> L -> bool) (seqb : Sy -> Sy -> bo
   (forall a b, kappa a = kappa b -> a = b) ->
   canon_full leqb seqb (rl_region kappa m) = canon_full leqb seqb m.
 Proof. intros Hk. unfold canon_full. rewrite canon_rl. apply canon_keys_relabel. exact Hk. Qed.
+
+(* the same for the comparison the correspondence check makes since unused keys are dropped (canon_cmp) *)
+Theorem canon_cmp_relabel {L Sy} (leqb : L -> L -> bool) (seqb : Sy -> Sy -> bool) kappa (m : eregion L Sy) :
+  (forall a b, kappa a = kappa b -> a = b) ->
+  canon_cmp leqb seqb (rl_region kappa m) = canon_cmp leqb seqb m.
+Proof.
+  intros Hk. unfold canon_cmp. rewrite canon_rl, (prune_keys_relabel kappa Hk). apply canon_keys_relabel. exact Hk.
+Qed.
+
+(* a key that no hint of its region mentions is invisible to that comparison: putting extra keys (not used by
+   the hints of the region) on the children of the module region does not change canon_cmp's pruning *)
+Lemma keep_used_app used extra keys :
+  (forall k, In k extra -> mem Z.eqb k used = false) -> keep_used used (keys ++ extra) = keep_used used keys.
+Proof.
+  intros H. unfold keep_used. rewrite filter_app.
+  assert (E : filter (fun k => mem Z.eqb k used) extra = []).
+  { induction extra as [|k r IH]; [reflexivity|]. cbn [filter]. rewrite (H k (or_introl eq_refl)).
+    apply IH. intros k' Hk'. apply H. right. exact Hk'. }
+  rewrite E, app_nil_r. reflexivity.
+Qed.
 
 (* clause 6 for the export under any injective labelling of the keyed nodes *)
 Theorem export_order_hints_any_labelling (kappa : Z -> Z) h :
